@@ -159,7 +159,15 @@ class QasmVisitor:
         if self._in_block_scope():
             for scope, context in zip(reversed(self._scope), reversed(self._context)):
                 if context != Context.BLOCK:
-                    return var_name in scope
+                    if var_name in scope:
+                        return True
+                    # a block of a subroutine or gate body sees what the body sees:
+                    # its own names and the global constants
+                    return (
+                        context != Context.GLOBAL
+                        and var_name in global_scope
+                        and global_scope[var_name].is_constant
+                    )
                 if var_name in scope:
                     return True
         return False
@@ -187,7 +195,15 @@ class QasmVisitor:
         if self._in_block_scope():
             for scope, context in zip(reversed(self._scope), reversed(self._context)):
                 if context != Context.BLOCK:
-                    return scope.get(var_name, None)
+                    if var_name in scope:
+                        return scope[var_name]
+                    if (
+                        context != Context.GLOBAL
+                        and var_name in global_scope
+                        and global_scope[var_name].is_constant
+                    ):
+                        return global_scope[var_name]
+                    return None
                 if var_name in scope:
                     return scope[var_name]
                     # keep on checking otherwise
